@@ -135,7 +135,7 @@ def spec_single(D, dt, nsteps, inflow=None, outrate=None, init=30.0, start=2000.
     return {"comps": comps, "characs": [], "pars": pars, "transitions": trans, "pops": ["pa"], "transfers": [], "settings": [start, start + nsteps * dt, dt], "regime": "c05"}
 
 
-def spec_group(D, dt, nsteps, inflow, mode, move=0.4, back=0.0, D2=None, start=2000.0):
+def spec_group(D, dt, nsteps, inflow, mode, move=0.4, back=0.0, D2=None, start=2000.0, jprop=1.0):
     """
     mode 'direct'  : t00 --ra1 (TimedLink)--> t01, both flush with du0
     mode 'junction': t00 --ra1--> g0 --pr0--> t01 (g0 in the duration group)
@@ -161,7 +161,7 @@ def spec_group(D, dt, nsteps, inflow, mode, move=0.4, back=0.0, D2=None, start=2
             trans += [["t02", "k0", "du0"], ["t00", "g0", "ra1"], ["g0", "t01", "pr0"], ["g0", "t02", ">"]]
         else:
             comps.append(C("g0", kind="junction"))
-            pars.append(P("pr0", "proportion", 1.0))
+            pars.append(P("pr0", "proportion", jprop))   # a single stated outflow: whatever weight is entered, the junction passes everything on (weights are normalised)
             trans += [["t00", "g0", "ra1"], ["g0", "t01", "pr0"]]
         if back:
             pars.append(P("ra2", "rate", back))
@@ -519,7 +519,7 @@ def check_group(ctx, case):
     s, pulse = case["s"], case["pulse"]
     infl1 = list(case["inflow"])
     infl1[s] = infl1[s] + pulse / case["dt"]
-    kw = dict(mode=mode, move=case["move"], back=case.get("back", 0.0), D2=case.get("D2"))
+    kw = dict(mode=mode, move=case["move"], back=case.get("back", 0.0), D2=case.get("D2"), jprop=case.get("jprop", 1.0))
     m0 = genfw.run(spec_group(case["D"], case["dt"], case["nsteps"], case["inflow"], **kw))
     m1 = genfw.run(spec_group(case["D"], case["dt"], case["nsteps"], infl1, **kw))
     t00 = get_comp(m0, "t00")
@@ -585,7 +585,7 @@ def run_groups(ctx, n):
         nsteps = rr.randint(k + 4, 2 * k + 8)
         case = {"mode": mode, "D": D, "dt": dt, "nsteps": nsteps, "inflow": [rr.choice([0.0, 10.0, round(rr.random() * 100, 2)]) for _ in range(nsteps + 1)],
                 "s": rr.randint(0, 3), "pulse": rr.choice([1.0, 100.0]), "move": rr.choice([0.2 / dt, 0.5 / dt, 0.9 / dt, 1.0 / dt, 3.0 / dt]), "back": rr.choice([0.0, 0.0, 0.3 / dt]),
-                "D2": rr.choice([2, 3, 5]) * dt}
+                "D2": rr.choice([2, 3, 5]) * dt, "jprop": rr.choice([1.0, 0.5, 0.8, 2.0])}
         check_group(ctx, case)
 
 
